@@ -160,6 +160,25 @@ def run_cases(ctx, world, cases, which):
             continue
         lbytes = bytes.fromhex(lenc[3:]) if lenc[3:] != "-" else b""
         bytes_ok = lbytes == c.impl_bytes
+        if not bytes_ok and ldec and ldec.startswith("ok "):
+            # the format does not prescribe an element order for sets and
+            # mappings: the bytes conform if the format decoder reads them
+            # back to a set-equal value, consumes exactly the encoding, and
+            # the format encoder reproduces them from the decoded order
+            parts0 = ldec.split(" ")
+            try:
+                same_val = cc.nan_normalise(cc.canon(parts0[2:])) == \
+                    cc.nan_normalise(cc.canon(c.toks)) and \
+                    int(parts0[1]) == len(c.garbage)
+            except Exception:   # noqa
+                same_val = False
+            if same_val:
+                re = core.lean_batch("codec", ["reset"] + world.node_lines() + [
+                    "enc %s %s" % (cc.hexs(c.name), " ".join(parts0[2:]))])[-1]
+                if re.startswith("ok ") and (bytes.fromhex(re[3:]) if re[3:]
+                                             != "-" else b"") == c.impl_bytes:
+                    bytes_ok = True
+                    ctx.count("bytes-conform-in-another-element-order")
         if not bytes_ok:
             replay["format_bytes"] = lbytes.hex()
             if which == "C08":
